@@ -62,7 +62,7 @@ func (a *APK) AddInstalledPackage(pkg *Package, files []tar.Header) error {
 	pkgLines := PackageToInstalled(pkg)
 	// file lines
 	for _, f := range sortedFiles {
-		perm := f.Mode & 0777
+		perm := f.Mode & 07777
 		user := f.Uid
 		group := f.Gid
 
